@@ -121,6 +121,15 @@ pub(crate) struct CreditUser {
 }
 
 impl CreditUser {
+    /// Whether the remote endpoint has closed the channel and, if so, whether it did so gracefully.
+    ///
+    /// Returns `None` while the channel is open or when the multiplexer has terminated.
+    pub fn closed(&self) -> Option<bool> {
+        let channel = self.channel.upgrade()?;
+        let channel = channel.lock().unwrap();
+        channel.closed
+    }
+
     /// Requests credits for sending.
     /// Blocks until at least `min_req` credits become available.
     pub async fn request(&self, req: u32, min_req: u32) -> Result<AssignedCredits, SendError> {
